@@ -24,11 +24,12 @@ WRAP = ['-Wl,--wrap=malloc,--wrap=calloc,--wrap=realloc,--wrap=free,--wrap=strdu
 
 REQUIRED_THEOREMS = ['cp_table_conforms', 'cp_template_conforms', 'refr_template_conforms',
                      'cp_value', 'cp_element_fails', 'cp_unknown_compound', 'cp_formula_precedence', 'cp_nist_fallback',
-                     'cp_zero_product_witness', 'cp_mixture_full_fails', 'cp_zero_product', 'cp_spec', 'cp_temporaries_released',
+                     'cp_zero_product_witness', 'cp_mixture_full_fails', 'cp_fails_full_fails', 'cp_zero_product', 'cp_spec', 'cp_temporaries_released',
+                     'cp_mixture_full_fixed', 'cp_element_fails_fixed', 'cp_fails_full_fixed', 'cp_temporaries_released_fixed',
                      'refr_guard_errors', 'refr_nist_density', 'refr_re_spec', 'refr_re_element_stops', 'refr_re_element_fails',
                      'refr_re_zero_witness', 'refr_im_spec', 'refr_im_element_stops', 'refr_im_element_fails', 'refr_im_zero_witness',
                      'refr_complex_spec', 'refr_complex_element_stops', 'refr2_eq', 'refr_temporaries_released']
-MIN_EXAMPLES = 12
+MIN_EXAMPLES = 14
 PROPOSED = os.path.join(VERIF, 'notes', 'proposed_findings', 'C06.txt')      # proposed entries, read in addition to known_findings.txt until merged
 # known-finding site (matched by this exact key; the classification below decides, per call, whether a failure IS this site's behaviour)
 K_MASK = 'cs_cp.c:48-51 zero elemental value ends the loop before a failing element'
@@ -242,6 +243,8 @@ class Run:
         self.ctx.tick('extract', t)
         if p.returncode != 0: raise BuildError('c06extract failed: ' + (p.stdout + p.stderr)[-2000:])
         self.meta = json.load(open(self.meta_path))
+        # which of the two `_CP` bodies the working tree has (as shipped / after the proposed repair C06-1): read off the AST, proved by cp_template_conforms
+        self.variant = 'fixed' if any('tmp_error != NULL' in l for tpl in self.meta['templates'][:1] for l in tpl) else ''
         return [l[8:] for l in p.stdout.splitlines() if l.startswith('PROBLEM ')]
 
     def lake(self, targets):
@@ -279,12 +282,41 @@ class Run:
 
     def run_model(self, lines):
         def one(ls):
-            p = subprocess.run([self.model_exe()], input='\n'.join(ls) + '\n', capture_output=True, text=True)
+            p = subprocess.run([self.model_exe()] + ([self.variant] if getattr(self, 'variant', '') else []), input='\n'.join(ls) + '\n', capture_output=True, text=True)
             out = p.stdout.splitlines()
             if p.returncode != 0 or len(out) != len(ls):
                 raise BuildError('c06-model failed (%d answers for %d lines): %s' % (len(out), len(ls), p.stderr[-1000:]))
             return out
         return self._chunks(lines, one, chunk=4000)
+
+    def coverage(self, lines):
+        """thorough tier: line/branch coverage of src/cs_cp.c and src/refractive_indices.c reached by the run, measured on a second,
+        coverage-instrumented build of the working tree (observer only)"""
+        t = time.time()
+        covfl = ('-fprofile-instr-generate', '-fcoverage-mapping')
+        objs, fl = cbuild.build_lib(self.sc, REPO, san=None, extra=covfl, tag='cov')
+        exe = self.sc.path('c06drv_cov')
+        cbuild.link(self.sc, objs, [os.path.join(VERIF, 'harness', 'c06drv.c')], exe, fl + WRAP)
+        pdir = self.sc.path('prof'); os.makedirs(pdir, exist_ok=True)
+        env = dict(os.environ, LLVM_PROFILE_FILE=os.path.join(pdir, 'c06-%p.profraw'))
+        def one(ls):
+            subprocess.run([exe], input='\n'.join(ls) + '\n', capture_output=True, text=True, env=env); return []
+        self._chunks(lines, one, chunk=20000)
+        raws = [os.path.join(pdir, f) for f in os.listdir(pdir)]
+        merged = self.sc.path('c06.profdata')
+        p = subprocess.run(['llvm-profdata-14', 'merge', '-sparse'] + raws + ['-o', merged], capture_output=True, text=True)
+        if p.returncode != 0: return dict(error=p.stderr[-300:])
+        out = {}
+        for f in ('cs_cp.c', 'refractive_indices.c'):
+            src = os.path.join(REPO, 'src', f)
+            p = subprocess.run(['llvm-cov-14', 'export', '-summary-only', '-instr-profile=' + merged, exe, src], capture_output=True, text=True)
+            try:
+                d = json.loads(p.stdout)['data'][0]['files'][0]['summary']
+                out[f] = {k: dict(covered=d[k]['covered'], count=d[k]['count'], percent=round(d[k]['percent'], 2)) for k in ('lines', 'branches', 'functions', 'regions') if k in d}
+            except Exception as e:
+                out[f] = dict(error=str(e)[:200] + p.stderr[-200:])
+        self.ctx.tick('coverage', t)
+        return out
 
     # ---- generators -----------------------------------------------------------------------------
     def compounds(self, fn):
@@ -295,7 +327,7 @@ class Run:
         bad = [self.sym[z] for z in sorted(self.sym) if lo <= z <= hi]
         g = G.Gen(r, good)
         out = []
-        n = (120 if thorough else 30)
+        n = (400 if thorough else 30)
         for k in range(n):
             f = g.formula(maxdepth=3, maxlen=48)
             out.append(('formula', G.show(f), dict(depth=G.depth(f), items=G.n_items(f))))
@@ -371,7 +403,7 @@ class Run:
             lines.append(l); fam.append(family); meta.append(m)
         for fn in CPF + list(REFR):
             comps = self.compounds(fn)
-            nE = 4 if thorough else 2
+            nE = 6 if thorough else 2
             def argsets(kind):
                 """argument tuples for one compound"""
                 Es = self.energies(fn, nE)
@@ -440,7 +472,7 @@ def print_axioms(run, names):
 
 def failing_theorems(build_log):
     names = []
-    for m in re.finditer(r'(XrlC06/[\w/]+\.lean):(\d+):\d+', build_log):
+    for m in re.finditer(r'error: (XrlC06/[\w/]+\.lean):(\d+):\d+', build_log):
         rel, ln = m.group(1), int(m.group(2))
         try: src = open(os.path.join(LEAN_DIR, rel)).read().splitlines()
         except OSError: continue
@@ -461,6 +493,7 @@ def shape_diff(meta):
         if e['args'] != exp: out.append('%s passes (%s), expected (%s)' % (e['name'], ', '.join(e['args']), ', '.join(exp)))
         if e['weight'] != 'massFractions[i]': out.append('%s multiplies by %s' % (e['name'], e['weight']))
         if e['tmpl'] != 0: out.append('%s has a body different from that of %s' % (e['name'], meta['entries'][0]['name']))
+    if len(meta['templates']) != 1: out.append('%d different normalised bodies among the %d functions' % (len(meta['templates']), len(meta['entries'])))
     got = [e['callee'] for e in meta['entries']]
     if got != CPF and sorted(got) != sorted(CPF):
         out.append('functions defined: missing %s, unexpected %s' % (sorted(set(CPF) - set(got)), sorted(set(got) - set(CPF))))
@@ -587,13 +620,14 @@ class C06:
                 if not f.startswith('inj') and f != 'replay':
                     probs = probs + ['%s on an input the real lookups produce: the call returned %s %s' % (ex[1], pc['vals'], pc['slot'])]
             site = None
-            if probs and ex[0] == 'fails' and ex[1] == 'element without data' and not fam[i].startswith('inj'):
+            if probs and ex[0] == 'fails' and ex[1] == 'element without data':
                 mz = masked_failure(lines[i], pc)
                 if mz is not None:
                     site = K_MASK
                     probs = ['must fail (an element has no data) but returned 0 without an error: the elemental value of Z=%d is exactly 0, which ends the loop before the failing element' % mz]
             for pb in probs: viol.append((lines[i], pb, pc['res'], '%s %s' % (ex[0], ex[1]), site))
         ctx.tick('search', t)
+        cov_c = R.coverage(lines) if (R.tier == 'thorough' and not replay) else None
         # ---- classify ----------------------------------------------------------------------------------------
         new = []; hits = {}
         for v in viol:
@@ -625,6 +659,12 @@ class C06:
             if rep['proof_broken']:
                 body += '# theorems that no longer check: %s\n# %s\n' % (', '.join(rep['proof_broken']), rep.get('proof_log', '').replace('\n', '\n# '))
             for sd in rep.get('shape_diff', []): body += '# shape of the C source: %s\n' % sd
+            if any('cp_template_conforms' in x for x in rep['proof_broken']) and R.meta['templates']:
+                body += '# normalised body of %s as extracted from the AST (compare CP.expectedCpTemplate in lean-c06/XrlC06/Hand/CP.lean):\n' % R.meta['entries'][0]['name']
+                body += ''.join('#   %s\n' % l for l in R.meta['templates'][0])
+            if any('refr_template_conforms' in x for x in rep['proof_broken']):
+                for fdef in R.meta['refr']:
+                    body += '# body of %s as extracted from the AST (compare CP.expectedRe/Im/Cx/Cx2):\n' % fdef['name'] + ''.join('#   %s\n' % l for l in fdef['body'])
             for tb in rep['tie_broken']: body += '# correspondence broken: %s\n' % tb
             for pb in rep['problems']: body += '# %s\n' % pb
             for l, c, m in mism[:50]: body += '%s\n' % l
@@ -653,7 +693,8 @@ class C06:
                             len(R.sym), 'CS_Energy 93-103, cross sections 99-103, Fi 101-103', len(R.nist)),
                    samples=[dict(line=lines[i], impl=c_out[i][:400], model=mo.get(i, '')[:200]) for i in smp],
                    max_rel_dev_model_vs_impl=stats.get('max_rel_dev', 0.0), max_rel_dev_oracle_vs_impl=sstats.get('max_rel_dev', 0.0),
-                   distribution=dist, shape_table=dict(functions=len(R.meta['entries']), templates=len(R.meta['templates']), problems=R.meta['problems'], sha=R.meta['sha']),
+                   distribution=dist, c_coverage=cov_c, shape_table=dict(functions=len(R.meta['entries']), templates=len(R.meta['templates']), problems=R.meta['problems'], sha=R.meta['sha']),
+                   model_variant=('after proposed repair C06-1 (cpOfFixed)' if R.variant else 'as shipped (cpOf)'),
                    provenance=dict(repo=REPO, cs_cp_c=_sha(os.path.join(REPO, 'src', 'cs_cp.c')), refractive_indices_c=_sha(os.path.join(REPO, 'src', 'refractive_indices.c')),
                                    hand_model=_sha(os.path.join(LEAN_DIR, 'XrlC06', 'Hand', 'CP.lean'))),
                    broken=rep)
@@ -688,7 +729,7 @@ class C06:
                 if pc is None: res.append((l, 'library died or answered nothing: ' + c[:200], c, '', None)); continue
                 probs, ex = judge(l, pc)
                 if ex[0] == 'corner' and not l.startswith('inj'): probs = probs + [ex[1]]
-                if probs and known_site and ex[0] == 'fails' and not l.startswith('inj') and masked_failure(l, pc) is not None: probs = []
+                if probs and known_site and ex[0] == 'fails' and masked_failure(l, pc) is not None: probs = []
                 res.append((l, probs[0], pc['res'], '%s %s' % (ex[0], ex[1]), None) if probs else None)
             return res
         for _ in range(30):
